@@ -831,10 +831,6 @@ func (ex *Exec) specCall(env *Env, e *ECall) *Value {
 			l := ex.L.Of(types.Typ[types.String])
 			v := &Value{T: types.Typ[types.String], C: make([]*Term, 3)}
 			for k, c := range l.Comps {
-				if c.Kind == kStrOff {
-					v.C[k] = ex.zeroOfSort(c.Sort)
-					continue
-				}
 				n := fmt.Sprintf("%s$%d", uf.Name, k)
 				tb.DeclareUF(n, sorts, c.Sort)
 				v.C[k] = tb.App(n, c.Sort, as...)
